@@ -759,9 +759,7 @@ Definition flush (th : tid) (s : sys) : sys :=
   | None => s
   end.
 
-Definition step (s : sys) (te : tid * event) : option sys :=
-  let '(th, e) := te in
-  let s := flush th s in
+Definition step_core (s : sys) (th : tid) (e : event) : option sys :=
   match e with
   | EResume => Some s
   | EBegin i =>
@@ -781,6 +779,9 @@ Definition step (s : sys) (te : tid * event) : option sys :=
   | ECmdExit _ _ | EOutLine _ _ | ELogReady _ | EProbe _ _ _ => step_env s th e
   | _ => step_own s th e
   end.
+
+Definition step (s : sys) (te : tid * event) : option sys :=
+  step_core (flush (fst te) s) (fst te) (snd te).
 
 Fixpoint accept (s : sys) (evs : list (tid * event)) : option sys :=
   match evs with
